@@ -194,6 +194,7 @@ def case_cov_vs_sf(ctx):
     F = formulas()
     paths = paths_of(ctx, lambda turb, sc, kl: (turb.phase_covariance(0, R0, L0), turb.phase_covariance(R, R0, L0), sc.structure_function_vk(R, R0, L0)))
     rp = lambda m: replay_cov_vs_sf(clampv(mv(m)))
+    ctx.fallback = rp
     rel = Fr(1, 10 ** 9)
 
     def close(a, b, tol=rel):
@@ -411,6 +412,56 @@ def _replay_int_input(name, rvals, r0v, L0v):
     return bool(bad), dict(what="%s: %s" % (name, "; ".join(bad[:2]) or "integer and float separations agree"), r0=r0v, L0=L0v)
 
 
+def _replay_array_args(name, shape, rvals, r0v, L0v):
+    turb, sc, kl, ps = _mods()
+    calls = dict(structure_function_vk=lambda r: sc.structure_function_vk(r, r0v, L0v), stf_vonKarman=lambda r: kl.stf_vonKarman(r, L0v),
+                 structure_function_kolmogorov=lambda r: sc.structure_function_kolmogorov(r, r0v), stf_kolmogorov=lambda r: kl.stf_kolmogorov(r),
+                 phase_covariance=lambda r: turb.phase_covariance(r, r0v, L0v))
+    r = numpy.abs(numpy.asarray(rvals, dtype=float)).reshape(shape) + 0.01
+    try:
+        a = numpy.asarray(calls[name](r.copy()), dtype=float)
+    except Exception as e:
+        return True, dict(what="%s raises %s for a %s array of separations" % (name, type(e).__name__, shape))
+    b = numpy.array([float(calls[name](float(x))) for x in r.flat]).reshape(shape)
+    bad = a.shape != b.shape or not numpy.allclose(a, b, rtol=1e-6, atol=0)
+    return bool(bad), dict(what="%s on a %s array is not the element-wise scalar result" % (name, shape), r=r, got=a, want=b)
+
+
+def case_array_args(ctx):
+    """the closed forms act ELEMENT-WISE on arrays of separations of any shape (matrices of point-pair distances,
+    including ones whose last axis happens to have length 2 or 3)"""
+    turb, sc, kl, ps = _mods()
+    pre = [z(R0.re) > 0, z(L0.re) > 0]
+    fns = [("structure_function_vk", lambda r: sc.structure_function_vk(r, R0, L0)), ("stf_vonKarman", lambda r: kl.stf_vonKarman(r, L0)),
+           ("structure_function_kolmogorov", lambda r: sc.structure_function_kolmogorov(r, R0)), ("stf_kolmogorov", lambda r: kl.stf_kolmogorov(r)),
+           ("phase_covariance", lambda r: turb.phase_covariance(r, R0, L0))]
+    ctx.bounds.update(shapes=[[2, 2], [1, 2], [2, 3], [2, 1, 2]], separations="symbolic > 0")
+    for shape in ((2, 2), (1, 2), (2, 3), (2, 1, 2)):
+        ra = symarr("ra%s" % "x".join(map(str, shape)), shape)
+        prs = pre + [z(e.re) > 0 for e in ra.flat]
+        for name, f in fns:
+            def go(f=f, ra=ra):
+                with npx.symbolic(turb, sc, kl):
+                    whole = numpy.asarray(f(ra.copy()), dtype=object)
+                    each = numpy.empty(ra.shape, dtype=object)
+                    for i in numpy.ndindex(*ra.shape):
+                        each[i] = f(ra[i])
+                return whole, each
+            paths, ex = core.run_paths(go, prs, max_paths=64)
+            ctx.explored(ex, len(paths))
+
+            def rp(m, name=name, shape=shape, ra=ra):
+                v = clampv(mv(m))
+                return _replay_array_args(name, shape, [float(m(e)) for e in ra.flat], v["r0"], v["L0"])
+            for pi, pth in enumerate(paths):
+                if pth.exc is not None:
+                    ctx.prove("%s %s path%d raises %s" % (name, shape, pi, type(pth.exc).__name__), prs + pth.pc, z3.BoolVal(False), replay=rp, axioms=False)
+                    continue
+                whole, each = pth.out
+                ctx.prove("%s on a %s array = the scalar result element by element (path%d)" % (name, "x".join(map(str, shape)), pi), prs + pth.pc,
+                          all_eq(whole, each) if whole.shape == each.shape else z3.BoolVal(False), replay=rp, timeout_ms=30000, replay_on_unknown=True)
+
+
 def case_int_input(ctx):
     """separations handed over as an INTEGER array (pixel counts are): every closed form returns what it returns for the
     same values in float64 - buffers made with *_like of the input must not inherit its integer type"""
@@ -450,7 +501,7 @@ def case_int_input(ctx):
 
 
 def build_cases(tier):
-    return [("copies", case_copies, {}), ("integer-separations", case_int_input, {}), ("history", case_history, {}), ("covariance-vs-structure-function", case_cov_vs_sf, {}), ("r0-scaling", case_scaling, {}), ("psd", case_psd, {})]
+    return [("copies", case_copies, {}), ("integer-separations", case_int_input, {}), ("array-arguments", case_array_args, {}), ("history", case_history, {}), ("covariance-vs-structure-function", case_cov_vs_sf, {}), ("r0-scaling", case_scaling, {}), ("psd", case_psd, {})]
 
 
 if __name__ == "__main__":
